@@ -61,13 +61,18 @@ ZERO = Poly([0])
 
 
 def probe(fn):
-    """Abstract function id -> exact polynomial (degree 2, integer coefficients, positive on [0, inf))."""
+    """Abstract function id -> exact polynomial (degree 2, integer coefficients, without a zero on [0, inf); pair and embedding
+    functions positive, every second density / dipole / quadrupole function negative)."""
     if fn["f"] == "zero":
         return ZERO
     uid = KIND[fn["f"]] * 100 + fn["s"] * 10 + fn["t"]
     a0 = uid
     a2 = (uid % 5) + 1
     a1 = -((uid % 7) + 1)          # a1^2 < 4 a0 a2  => positive everywhere (needed by funcfl's sqrt)
+    if fn["f"] in ("dens", "dip", "quad") and uid % 2:
+        # a density contribution / dipole / quadrupole function may be negative: the file stores the declared function whatever its
+        # sign (only the SUM over the neighbours is embedded); every second one is negative on the whole grid
+        return Poly([-a0, -a1, -a2])
     return Poly([a0, a1, a2])
 
 
